@@ -931,7 +931,7 @@ func (t *Tokenizer) readQuotedIdentifier() (models.Token, error) {
 
 		if r == '\n' {
 			return models.Token{}, errors.UnterminatedStringError(
-				models.Location{Line: startPos.Line, Column: startPos.Column},
+				t.toSQLPosition(startPos),
 				string(t.input),
 			)
 		}
@@ -1517,6 +1517,7 @@ func (t *Tokenizer) readPunctuation() (models.Token, error) {
 		return models.Token{Type: models.TokenTypeQuestion, Value: "?"}, nil
 	case '$':
 		// Handle PostgreSQL positional parameters ($1, $2, etc.)
+		dollarStart := t.pos
 		t.pos.AdvanceRune(r, size)
 		if t.pos.Index < len(t.input) {
 			nextR, _ := utf8.DecodeRune(t.input[t.pos.Index:])
@@ -1595,7 +1596,7 @@ func (t *Tokenizer) readPunctuation() (models.Token, error) {
 				}
 				// Unterminated dollar-quoted string
 				return models.Token{}, errors.UnterminatedStringError(
-					models.Location{Line: t.pos.Line, Column: t.pos.Column},
+					t.toSQLPosition(dollarStart),
 					string(t.input),
 				)
 			}
